@@ -5,6 +5,7 @@ package harness
 import (
 	"context"
 	"fmt"
+	"google.golang.org/grpc/peer"
 	"runtime"
 	"sync"
 	"sync/atomic"
@@ -29,6 +30,9 @@ type c20Case struct {
 	Ending  string // peer-finish | cancel
 	Heap    bool   // also bound the live heap of the stalled stream
 	Pending string `json:",omitempty"` // c2s on bidi: before stalling, the handler sends "header" or "message" which the client never reads
+	// CallOpts: the stream is opened with grpc.Header / grpc.Trailer / grpc.Peer call options (1 = header,
+	// 2 = trailer, 4 = peer, summed); options only say where results are to be stored
+	CallOpts int `json:",omitempty"`
 }
 
 type c20Obs struct {
@@ -155,7 +159,22 @@ func propC20(c c20Case) *Outcome {
 	if c.Kind == kServerStream && c.Dir == "c2s" {
 		sdesc = &grpc.StreamDesc{StreamName: "ServerStream", ClientStreams: true, ServerStreams: true}
 	}
-	cs, err := car.Conn.NewStream(ctx, sdesc, methodOf(c.Kind))
+	var copts []grpc.CallOption
+	var optHdr, optTlr metadata.MD
+	var optPeer peer.Peer
+	if c.CallOpts&1 != 0 {
+		copts = append(copts, grpc.Header(&optHdr))
+	}
+	if c.CallOpts&2 != 0 {
+		copts = append(copts, grpc.Trailer(&optTlr))
+	}
+	if c.CallOpts&4 != 0 {
+		copts = append(copts, grpc.Peer(&optPeer))
+	}
+	if c.CallOpts != 0 {
+		o.class("with-call-options")
+	}
+	cs, err := car.Conn.NewStream(ctx, sdesc, methodOf(c.Kind), copts...)
 	if err != nil {
 		return o.failf("NewStream: %v", err)
 	}
@@ -304,6 +323,7 @@ func genC20(t *rapid.T) c20Case {
 		c.Recvs = append(c.Recvs, rapid.SampledFrom([]int{0, 0, 1, 1, 2, 3}).Draw(t, "recvs"))
 	}
 	c.Ending = rapid.SampledFrom([]string{"peer-finish", "cancel"}).Draw(t, "ending")
+	c.CallOpts = rapid.SampledFrom([]int{0, 0, 0, 1, 1, 2, 3, 4, 7}).Draw(t, "callopts")
 	if c.Dir == "c2s" && c.Kind == kBidi {
 		c.Pending = rapid.SampledFrom([]string{"", "", "header", "message"}).Draw(t, "pending")
 	}
